@@ -11,6 +11,56 @@ From CGV Require Import Base.PyBase Base.PyVal Base.NxGraph Resolve.Bonding Reso
 From CGV Require Import Dialect.DialectImpl Frag.NDict Frag.StripImpl Frag.FragText Dialect.FragAnnot Dialect.ResolveFaults.
 Import ListNotations.
 
+(** ** re.findall(r"\{[^\}]+\}", s) on a string that starts with a block *)
+Lemma span_nonclose_len s : forall a b, span_nonclose s = (a, b) -> (length b <= length s)%nat.
+Proof.
+  induction s as [|c r IH]; intros a b H; cbn [span_nonclose] in H; [injection H as <- <-; cbn; lia|].
+  destruct (Ascii.eqb c "}"%char); [injection H as <- <-; cbn; lia|].
+  destruct (span_nonclose r) as [a' b'] eqn:E. injection H as <- <-. specialize (IH a' b' eq_refl). cbn. lia.
+Qed.
+Lemma span_nonclose_app body tail : ~ In "}"%char body -> span_nonclose (body ++ "}"%char :: tail) = (body, "}"%char :: tail).
+Proof.
+  induction body as [|c r IH]; intros H; cbn [app span_nonclose]; [reflexivity|].
+  destruct (Ascii.eqb_spec c "}"%char) as [->|N]; [exfalso; apply H; now left|].
+  rewrite IH by (intros HI; apply H; now right). reflexivity.
+Qed.
+Lemma find_blocks_fuel_enough : forall f1 f2 s, (length s < f1)%nat -> (length s < f2)%nat ->
+  find_blocks_fuel f1 s = find_blocks_fuel f2 s.
+Proof.
+  induction f1 as [|f1 IH]; intros f2 s H1 H2; [lia|]. destruct f2 as [|f2]; [lia|]. cbn [find_blocks_fuel].
+  destruct s as [|c r]; [reflexivity|]. cbn [length] in H1, H2.
+  assert (Er : find_blocks_fuel f1 r = find_blocks_fuel f2 r) by (apply IH; lia).
+  destruct (Ascii.eqb c "{"%char); [|exact Er].
+  destruct (span_nonclose r) as [a b] eqn:E. pose proof (span_nonclose_len r a b E) as L.
+  destruct a as [|x body]; [exact Er|]. destruct b as [|y rest]; [exact Er|]. cbn [length] in L.
+  f_equal. apply IH; lia.
+Qed.
+Theorem find_blocks_cons body tail : body <> [] -> ~ In "}"%char body ->
+  find_blocks ("{"%char :: body ++ "}"%char :: tail) = ("{"%char :: body ++ ["}"%char]) :: find_blocks tail.
+Proof.
+  intros Hne Hno. unfold find_blocks.
+  change (find_blocks_fuel (Datatypes.S (length ("{"%char :: body ++ "}"%char :: tail))) ("{"%char :: body ++ "}"%char :: tail))
+    with (match span_nonclose (body ++ "}"%char :: tail) with
+          | (x :: body', _ :: rest) => ("{"%char :: x :: body' ++ ["}"%char]) :: find_blocks_fuel (length ("{"%char :: body ++ "}"%char :: tail)) rest
+          | _ => find_blocks_fuel (length ("{"%char :: body ++ "}"%char :: tail)) (body ++ "}"%char :: tail)
+          end).
+  rewrite (span_nonclose_app body tail Hno). destruct body as [|x b]; [congruence|].
+  f_equal. apply find_blocks_fuel_enough; cbn [length]; rewrite ?app_length; cbn [length]; lia.
+Qed.
+Lemma find_blocks_skip c r : c <> "{"%char -> find_blocks (c :: r) = find_blocks r.
+Proof.
+  intros N. unfold find_blocks.
+  change (find_blocks_fuel (Datatypes.S (length (c :: r))) (c :: r))
+    with (if Ascii.eqb c "{"%char
+          then match span_nonclose r with
+               | (x :: body, _ :: rest) => ("{"%char :: x :: body ++ ["}"%char]) :: find_blocks_fuel (length (c :: r)) rest
+               | _ => find_blocks_fuel (length (c :: r)) r end
+          else find_blocks_fuel (length (c :: r)) r).
+  destruct (Ascii.eqb_spec c "{"%char); [congruence|].
+  apply find_blocks_fuel_enough; cbn [length]; lia.
+Qed.
+Lemma find_blocks_nil : find_blocks [] = []. Proof. reflexivity. Qed.
+
 Section Driver.
   Variable read_cgsmiles : pystr -> res graph.
   Variable read_fragments : pystr -> bool -> res fragdict.
@@ -82,6 +132,23 @@ Section Driver.
   Proof.
     intros Hs R Hk Hfd He. apply (driver_level_error s laa legacy trs st k st' trs' e Hs R Hk).
     unfold resolve. rewrite Hfd. cbn [of_option bind]. now rewrite (resolve_step_propagates _ _ fd _ _ e He).
+  Qed.
+
+  (** the same from the STRING: s = "{body}" ++ tail, resp. s = "{body}.{fbody}" *)
+  Theorem driver_string_base_error body tail laa legacy trs e :
+    body <> [] -> ~ In "}"%char body -> read_cgsmiles ("{"%char :: body ++ ["}"%char]) = Err e ->
+    drive ("{"%char :: body ++ "}"%char :: tail) laa legacy trs = Err e.
+  Proof. intros Hne Hno He. exact (driver_base_error _ laa legacy trs _ _ e (find_blocks_cons body tail Hne Hno) He). Qed.
+  Theorem driver_string_fragment_error body fbody laa legacy trs mol e :
+    body <> [] -> ~ In "}"%char body -> fbody <> [] -> ~ In "}"%char fbody ->
+    read_cgsmiles ("{"%char :: body ++ ["}"%char]) = Ok mol ->
+    read_fragments ("{"%char :: fbody ++ ["}"%char]) laa = Err e ->
+    drive ("{"%char :: body ++ "}"%char :: "."%char :: "{"%char :: fbody ++ ["}"%char]) laa legacy trs = Err e.
+  Proof.
+    intros Hne Hno Fne Fno Hm He.
+    apply (driver_fragment_error _ laa legacy trs ("{"%char :: body ++ ["}"%char]) mol [] ("{"%char :: fbody ++ ["}"%char]) [] e); auto.
+    rewrite (find_blocks_cons body _ Hne Hno), find_blocks_skip by discriminate.
+    now rewrite (find_blocks_cons fbody [] Fne Fno).
   Qed.
 End Driver.
 
